@@ -68,6 +68,11 @@ b('C01', 'off-diagonal sign', NA, "        return -admittance_between(no_voltage
 b('C01', 'reference potential not zero', BPA, "        if node_id == self.network.node_zero_label:\n            return 0", "        if node_id == self.network.node_zero_label:\n            return 1", 'R01.current')
 b('C01', 'power without conjugate', SOL, "self.get_current(branch_id).conjugate()", "self.get_current(branch_id)", 'R01.current')
 b('C01', 'Is ordered by another map', NA, "    Is = current_source_vector(network, source_mapper=source_mapper)", "    Is = current_source_vector(network, source_mapper=map.alphabetic_voltage_source_mapper)", 'R01.space')
+b('C01', 'branches_between in one orientation only', NN, "if set((branch.node1, branch.node2)) == set((node1, node2))]", "if (branch.node1, branch.node2) == (node1, node2)]", 'R01.Y')
+b('C01', 'infinite admittances summed', NA, "    return sum(b.element.Y for b in network.branches_connected_to(node) if np.isfinite(b.element.Y))", "    return sum(b.element.Y for b in network.branches_connected_to(node))", 'R01.Y')
+b('C01', 'diagonal sums only first terminals', NN, "connected_branches = [branch for branch in self.branches if branch.node1 == node or branch.node2 == node]", "connected_branches = [branch for branch in self.branches if branch.node1 == node]", 'R01.Y')
+b('C01', 'ideal voltage sources left in Y', NA, "Network(branches=[b for b in network.branches if not is_ideal_voltage_source(b.element)], node_zero_label=network.node_zero_label)", "Network(branches=[b for b in network.branches], node_zero_label=network.node_zero_label)", 'R01.Y')
+b('C01', 'determinant pre-check', BPA, "        try:\n            self._solution_vector = np.linalg.solve(A, b)", "        try:\n            if abs(np.linalg.det(A)) < 1e-9:\n                raise np.linalg.LinAlgError\n            self._solution_vector = np.linalg.solve(A, b)", 'R01.solve')
 # ---- C02
 b('C02', 'capacitor w/C', CT, "elm.admittance_value(B=w*C)", "elm.admittance_value(B=w/C)", 'R02.immittance')
 b('C02', 'capacitor as conductance', CT, "elm.admittance_value(B=w*C)", "elm.admittance_value(G=w*C)", 'R02.immittance')
